@@ -27,7 +27,7 @@ Everything outside the grammar below is a TranslateError (never silently skipped
            | if cond block [else block]       (no `return` in it, or: no else and the block always returns)
            | for x in expr block              (body may only update self)
            | return expr ; | assert!(expr) ; | unsafe block | expr ;
-  expr   ::= int | x | self | expr.f | expr.m(args) | Path::f(args) | Some(e) | None | (e, ..) | Struct { f [: e], .. }
+  expr   ::= int | true | false | x | self | expr.f | expr.m(args) | Path::f(args) | Some(e) | None | (e, ..) | Struct { f [: e], .. }
            | e + e | e - e | e * e | e / e | e % e | e == e | e != e | e < e | e <= e | e > e | e >= e
            | e && e | e || e | !e           (operands of && || must be panic-free)
            | &e | &mut e | e[i] | e[..n] | e as &_ | e as &mut _ | if cond block else block | unsafe block
@@ -58,17 +58,17 @@ TOKEN_RE = re.compile(r"""
    (?P<ws>\s+) | (?P<lc>//[^\n]*) | (?P<bc>/\*.*?\*/)
  | (?P<str>"(?:[^"\\]|\\.)*")
  | (?P<life>'[A-Za-z_]\w*(?!'))
- | (?P<int>\d[\d_]*(?:usize)?(?![\w.]))
+ | (?P<int>\d[\d_]*(?:usize)?(?!\w)(?!\.\d))
  | (?P<id>[A-Za-z_]\w*)
  | (?P<op>::|->|=>|==|!=|<=|>=|\+=|-=|\*=|/=|%=|&&|\|\||\.\.=|\.\.|[-+*/%=<>!&|.,;:\#\[\]{}()?])
 """, re.X | re.S)
 
 
 class Tok:
-    __slots__ = ("k", "t", "line")
+    __slots__ = ("k", "t", "line", "pos")
 
-    def __init__(self, k, t, line):
-        self.k, self.t, self.line = k, t, line
+    def __init__(self, k, t, line, pos=-1):
+        self.k, self.t, self.line, self.pos = k, t, line, pos
 
     def __repr__(self):
         return f"{self.t!r}@{self.line}"
@@ -82,7 +82,7 @@ def lex(src):
             err(line, f"unrecognised character {src[i]!r}")
         k = m.lastgroup
         if k not in ("ws", "lc", "bc"):
-            toks.append(Tok(k, m.group(0), line))
+            toks.append(Tok(k, m.group(0), line, i))
         line += m.group(0).count("\n")
         i = m.end()
     toks.append(Tok("eof", "<eof>", line))
@@ -718,9 +718,11 @@ class Parser:
             where = split_generics(self.toks[wstart:self.i], line)
         sig = text_of(self.toks[start:self.i])
         sig = re.sub(r"^(pub )?(unsafe )?fn ", "", sig)
+        bstart = self.i
         body = self.block()
         return dict(name=name, line=line, pub=pub, unsafe=unsafe, generics=generics, where=where,
-                    self_mode=self_mode, params=params, ret=ret, body=body, sig=sig)
+                    self_mode=self_mode, params=params, ret=ret, body=body, sig=sig,
+                    body_toks=self.toks[bstart:self.i])
 
 
 def split_generics(run, line):
@@ -1430,6 +1432,8 @@ class FnTranslator:
                 return k(env, "s", REC(self.owner))
             if segs == ("None",):
                 return k(env, "None", OPT(None))
+            if segs in (("true",), ("false",)) and segs[0] not in env:
+                return k(env, segs[0], BOOL)
             if len(segs) == 1 and segs[0] in env:
                 return k(env, env[segs[0]][0], env[segs[0]][1])
             err(ln, f"unknown name {'::'.join(segs)}")
@@ -1907,6 +1911,44 @@ def translate_text(src):
     return text, [d["name"] for d in order]
 
 
+MUT_OPS = {"+": "-", "-": "+", "%": "/", "/": "%", "==": "!=", "!=": "==", "<": "<=", "<=": "<", ">": ">=", ">=": ">",
+           "+=": "-=", "-=": "+="}
+MUT_FIELDS = {"start": "len", "len": "start"}
+
+
+def sensitivity(src, limit=None, pick=None):
+    """Self-test of "never silently skipped": every single-token edit of a method body out of a fixed family
+    (an arithmetic / comparison / compound-assignment operator replaced by its neighbour, an integer literal
+    incremented, `self.start` <-> `self.len`) must either be rejected or change the generated text.
+    -> dict(sites, rejected, changed, ignored=[...]).  `pick(n, k)` chooses k of n sites (None: all)."""
+    base, _ = translate_text(src)
+    sites = []
+    for owner, trait, f in parse_file(src):
+        toks = f["body_toks"]
+        for j, t in enumerate(toks):
+            if t.k == "op" and t.t in MUT_OPS:
+                sites.append((t, MUT_OPS[t.t], f"{owner}::{f['name']}"))
+            elif t.k == "int":
+                sites.append((t, str(int(t.t.replace("_", "").replace("usize", "")) + 1), f"{owner}::{f['name']}"))
+            elif t.k == "id" and t.t in MUT_FIELDS and j >= 2 and toks[j - 1].t == "." and toks[j - 2].t in ("self", "bounded") \
+                    and not (j + 1 < len(toks) and toks[j + 1].t == "("):
+                sites.append((t, MUT_FIELDS[t.t], f"{owner}::{f['name']}"))
+    chosen = sites if (limit is None or limit >= len(sites) or pick is None) else [sites[i] for i in pick(len(sites), limit)]
+    res = dict(sites=len(sites), tried=len(chosen), rejected=0, changed=0, ignored=[])
+    for t, new, where in chosen:
+        mutated = src[:t.pos] + new + src[t.pos + len(t.t):]
+        try:
+            out, _ = translate_text(mutated)
+        except TranslateError:
+            res["rejected"] += 1
+            continue
+        if out == base:
+            res["ignored"].append(f"lib.rs:{t.line} {where}: `{t.t}` -> `{new}` leaves the generated model unchanged")
+        else:
+            res["changed"] += 1
+    return res
+
+
 def write_if_changed(path, content):
     try:
         with open(path) as f:
@@ -1934,6 +1976,10 @@ def generate(src_path=None, out_path=OUT):
 
 
 if __name__ == "__main__":
+    if len(sys.argv) > 1 and sys.argv[1] == "--sensitivity":
+        p = sys.argv[2] if len(sys.argv) > 2 else DEFAULT_SRC
+        print(sensitivity(open(p).read()))
+        sys.exit(0)
     p = sys.argv[1] if len(sys.argv) > 1 else DEFAULT_SRC
     try:
         sys.stdout.write(translate_text(open(p).read())[0])
